@@ -72,6 +72,112 @@ def check_closures(src, problems):
                             'the store model describe the previous text' % (k[0], k[1], w.get(k), g.get(k)))
 
 
+RESIDUE_PINS = os.path.join(HERE, 'pins_residue.json')
+
+
+def residue_shapes(src):
+    """The STATEMENT-LEVEL RESIDUE of the translated directives.  The translator follows the control flow around the
+    action calls and skips INERT statements (argument normalisation, pattern / spec / name computation, the values the
+    callables later capture).  Those statements decide WHAT the actions do, so they are pinned: per directive the ordered
+    list of (a) signature and decorators, (b) every simple statement outside nested functions, (c) the header expression
+    of every compound statement -- without the nesting structure, so `elif` vs nested `else: if` and an extra `pass`
+    stay harmless, while an added / removed / changed / moved statement (a `self.commit()`, a dropped `rstrip`) breaks the tie."""
+    import ast
+    import hashlib
+    from . import translate
+    out = {}
+    for fn, cls, meths in translate.EMIT_FUNCS:
+        rel = 'pyramid/config/' + fn
+        for m in meths:
+            try:
+                node = F.strip_doc(translate.find_method(src, fn, cls, m)).body[0]
+            except Exception:
+                continue
+            # local names (assigned names, loop / with targets, nested function names -- not parameters) are numbered by
+            # first appearance, so renaming a local or a callable stays harmless
+            params = {a.arg for a in node.args.args + node.args.kwonlyargs + node.args.posonlyargs}
+            params |= {a.arg for a in (node.args.vararg, node.args.kwarg) if a is not None}
+            local = {}
+            own = []
+            todo = list(node.body)
+            while todo:
+                n = todo.pop(0)
+                own.append(n)
+                if isinstance(n, (ast.FunctionDef, ast.AsyncFunctionDef, ast.ClassDef)):
+                    if n.name not in params:
+                        local.setdefault(n.name, None)
+                    continue
+                todo[0:0] = list(ast.iter_child_nodes(n))
+            for n in own:
+                if isinstance(n, ast.Name) and isinstance(n.ctx, ast.Store) and n.id not in params:
+                    local.setdefault(n.id, None)
+            order = []
+            for n in own:
+                nm = n.name if isinstance(n, (ast.FunctionDef, ast.AsyncFunctionDef, ast.ClassDef)) else \
+                    (n.id if isinstance(n, ast.Name) else None)
+                if nm in local and nm not in order:
+                    order.append(nm)
+            for n in own:
+                if isinstance(n, ast.Name) and n.id in local:
+                    n.id = 'L%d' % order.index(n.id)
+            items = ['sig:' + ast.dump(node.args)] + ['dec:' + ast.dump(d) for d in node.decorator_list]
+
+            def walk(stmts):
+                for st in stmts:
+                    if isinstance(st, (ast.FunctionDef, ast.AsyncFunctionDef, ast.ClassDef)):
+                        items.append('def')            # bodies: pins_closures.json
+                    elif isinstance(st, ast.Pass):
+                        continue
+                    elif isinstance(st, ast.If):
+                        items.append('if:' + ast.dump(st.test))
+                        walk(st.body)
+                        walk(st.orelse)
+                    elif isinstance(st, (ast.For, ast.AsyncFor)):
+                        items.append('for:' + ast.dump(st.target) + ast.dump(st.iter))
+                        walk(st.body)
+                        walk(st.orelse)
+                    elif isinstance(st, ast.While):
+                        items.append('while:' + ast.dump(st.test))
+                        walk(st.body)
+                        walk(st.orelse)
+                    elif isinstance(st, (ast.With, ast.AsyncWith)):
+                        items.append('with:' + ''.join(ast.dump(i) for i in st.items))
+                        walk(st.body)
+                    elif isinstance(st, ast.Try):
+                        items.append('try')
+                        walk(st.body)
+                        for h in st.handlers:
+                            items.append('except:' + (ast.dump(h.type) if h.type is not None else '') + str(h.name))
+                            walk(h.body)
+                        items.append('else')
+                        walk(st.orelse)
+                        items.append('finally')
+                        walk(st.finalbody)
+                    else:
+                        items.append(ast.dump(st))
+            walk(node.body)
+            out.setdefault(rel, {})['%s.%s' % (cls, m)] = hashlib.sha1('\n'.join(items).encode()).hexdigest()[:16]
+    return out
+
+
+def check_residue(src, problems):
+    import json
+    got = residue_shapes(src)
+    try:
+        with open(RESIDUE_PINS) as f:
+            want = json.load(f)
+    except OSError:
+        problems.append('pins_residue.json missing')
+        return
+    for rel in sorted(set(got) | set(want)):
+        for q in sorted(set(got.get(rel, {})) | set(want.get(rel, {}))):
+            if got.get(rel, {}).get(q) != want.get(rel, {}).get(q):
+                problems.append('statement-level residue of the translated directive %s:%s changed (%s -> %s): the statements '
+                                'the translator skips as inert (argument handling, the values the action callables capture) '
+                                'are not what the model was written against'
+                                % (rel, q, want.get(rel, {}).get(q), got.get(rel, {}).get(q)))
+
+
 # class bodies and module constants the model relies on (value facts, fail-closed)
 CLASS_FACTS = {
     ('config/__init__.py', 'Configurator'): {
@@ -121,6 +227,7 @@ def facts(src):
     problems = []
     summary = F.check_shapes(src, os.path.join(HERE, 'pins.json'), problems)
     check_closures(src, problems)
+    check_residue(src, problems)
     check_class_facts(src, problems)
     ex = T.extract(src, problems)
     sites = ex['sites']
